@@ -214,6 +214,13 @@ class ComponentLevel2( ComponentLevel1 ):
 
         # still have names
         field, idx = obj_name[ name_depth ]
+        if isinstance( obj, Signal ) and \
+           field not in getattr( obj._dsl.Type, '__bitstruct_fields__', () ) and \
+           hasattr( obj._dsl.Type, field ):
+          # A method of the value of the signal ( s.in_.uint(),
+          # s.msg.to_bits() ): the signal itself is accessed
+          objs.add( obj )
+          return
         try:
           if isinstance( obj, Signal ) and field in getattr( obj._dsl.Type, '__bitstruct_fields__', () ):
             # A field of a bitstruct signal, even if the field has the
